@@ -358,7 +358,22 @@ def witness(assume, sampler, tries=400, roots=()):
     return None
 
 
-def guided_cex(goal, assume, sampler, tries=120, timeout_ms=3000, defined=True):
+def _solve_exact(Mq, bq):
+    n = len(bq)
+    A = [list(Mq[i]) + [bq[i]] for i in range(n)]
+    for c in range(n):
+        piv = next((r for r in range(c, n) if A[r][c] != 0), None)
+        if piv is None:
+            return None
+        A[c], A[piv] = A[piv], A[c]
+        for r in range(n):
+            if r != c and A[r][c] != 0:
+                f = A[r][c] / A[c][c]
+                A[r] = [x - f * y for x, y in zip(A[r], A[c])]
+    return [A[i][n] / A[i][i] for i in range(n)]
+
+
+def guided_cex(goal, assume, sampler, tries=120, timeout_ms=3000, defined=True, linsolves=None):
     """Simulation-guided model search: random dyadic points *propose* a falsifying assignment
     (float evaluation); the proposal is then *decided* by z3 on the exact terms with every input
     pinned to the proposed rational value.  Returns an env or None.  (z3's nlsat is weak at
@@ -371,10 +386,39 @@ def guided_cex(goal, assume, sampler, tries=120, timeout_ms=3000, defined=True):
         return None, None
     tested = 0
     fallback = None
+    linsolves = linsolves or []
+    linnames = {L_.t.v for (_, _, xs) in linsolves for L_ in xs.flat}
+    free = [n for n in names if n not in linnames]
     for _ in range(tries):
-        env = sampler(names)
+        env = sampler(free)
         env = {k: round(v * 64) / 64.0 for k, v in env.items()}
-        val = tm.evalf(order, env)
+        if linsolves:
+            # the values numpy.linalg.solve would return at this point: solved exactly, in creation order
+            qenv = {k: Fraction(v) for k, v in env.items()}
+            ok = True
+            for (M, b, xs) in linsolves:
+                ts = [e.t if hasattr(e, 't') else tm.const(e) for e in list(M.flat) + list(b.flat)]
+                vq = tm.evalq(tm.topo(ts), qenv)
+                vals = [vq[t.id] for t in ts]
+                if any(v is None for v in vals):
+                    ok = False
+                    break
+                n = len(b)
+                sol = _solve_exact([vals[i * n:(i + 1) * n] for i in range(n)], vals[n * n:])
+                if sol is None:
+                    ok = False
+                    break
+                for xv, sv in zip(xs.flat, sol):
+                    qenv[xv.t.v] = sv
+            if not ok:
+                continue
+            env = {k: float(v) for k, v in qenv.items() if k in names}
+            exact_env = {k: v for k, v in qenv.items() if k in names}
+            val = tm.evalq(order, exact_env)       # exact: the linear-system equalities must hold exactly
+            if any(val[a.id] is None for a in assume) or val[goal.id] is None:
+                continue
+        else:
+            val = tm.evalf(order, env)
         if not all(val[a.id] is True for a in assume):
             continue
         if val[goal.id] is not False:
@@ -382,21 +426,21 @@ def guided_cex(goal, assume, sampler, tries=120, timeout_ms=3000, defined=True):
         if any(isinstance(val[t.id], float) and (math.isnan(val[t.id]) or math.isinf(val[t.id])) for t in order):
             continue
         # margin: skip proposals that are within round-off of satisfying the goal
-        if goal.op in ('eq', 'le', 'lt'):
+        if goal.op in ('eq', 'le', 'lt') and val[goal.a[0].id] is not None and val[goal.a[1].id] is not None:
             a, b = val[goal.a[0].id], val[goal.a[1].id]
             if abs(a - b) <= 1e-7 * max(1.0, abs(a), abs(b)):
                 continue
         tested += 1
         if tested > 2:
             break
-        pins = [tm.eq(tm.var(k), tm.const(Fraction(v))) for k, v in env.items()]
+        pins = [tm.eq(tm.var(k), tm.const(exact_env[k] if linsolves else Fraction(v))) for k, v in env.items()]
         r = valid(goal, assume + pins, timeout_ms, defined=defined)
         if r.verdict == 'cex':
             return r.env, 'z3-pinned'
         if r.verdict == 'unknown' and fallback is None:
             # exact evaluation with nested algebraic numbers did not finish: keep the proposal; it is
             # only ever reported after the replay on the real build reproduces it
-            fallback = {k: Fraction(v) for k, v in env.items()}
+            fallback = dict(exact_env) if linsolves else {k: Fraction(v) for k, v in env.items()}
     if fallback is not None:
         return fallback, 'float-proposal'
     return None, None
